@@ -5,9 +5,9 @@ IDS=${@:-C01 C02 C03 C04 C05 C06 C07 C08 C09 C10 C11 C12 C13 C14 C15 C16 C17 C18
 cd /verif
 for id in $IDS; do
   s=$(date +%s)
-  ./check $id --tier $TIER > /tmp/runall_$id.out 2>&1
+  timeout ${RUNALL_TIMEOUT:-10800} ./check $id --tier $TIER > /tmp/runall_${TIER}_$id.out 2>&1
   rc=$?
   e=$(date +%s)
-  echo "$id rc=$rc $((e-s))s | $(grep "tier=$TIER" /tmp/runall_$id.out | head -1 | cut -c1-200)"
-  grep -E "VIOLATION|INCONCLUSIVE|ERROR|KNOWN-FINDING" /tmp/runall_$id.out | head -3 | cut -c1-300
+  echo "$id rc=$rc $((e-s))s | $(grep "tier=$TIER" /tmp/runall_${TIER}_$id.out | head -1 | cut -c1-200)"
+  grep -E "VIOLATION|INCONCLUSIVE|ERROR|KNOWN-FINDING" /tmp/runall_${TIER}_$id.out | head -3 | cut -c1-300
 done
